@@ -44,6 +44,9 @@ class ZarrCollection(SyncedCollection):
     """
 
     _backend = __name__  # type: ignore
+    # Mappings nested anywhere in the data (also below a ZarrList) become ZarrDicts,
+    # which require string keys.
+    _validators = (require_string_key,)
 
     def __init__(self, group=None, name=None, codec=None, *args, **kwargs):
         if not ZARR:
